@@ -37,13 +37,14 @@ const (
 )
 
 type emitSel struct {
-	kind  emitKind
-	name  string   // function name or "pkgSuffix.Type"
-	field string   // for emAppendLit: "Field=ConstName"; for emAssignField: field name
-	argIs string   // optional: for emCall — some argument's text must contain this
-	text  string   // optional: the emitted literal/call text must contain this (e.g. a constant message)
-	args  []string // optional, for emCall: positional argument texts ("" = any) that must be contained
-	ctor  bool     // set by the row engine on its fallback pass: a literal may be built by a called constructor
+	kind    emitKind
+	name    string   // function name or "pkgSuffix.Type"
+	field   string   // for emAppendLit: "Field=ConstName"; for emAssignField: field name
+	argIs   string   // optional: for emCall — some argument's text must contain this
+	text    string   // optional: the emitted literal/call text must contain this (e.g. a constant message)
+	args    []string // optional, for emCall: positional argument texts ("" = any) that must be contained
+	notText string   // optional: the emitted node must not mention this identifier/literal text
+	ctor    bool     // set by the row engine on its fallback pass: a literal may be built by a called constructor
 }
 
 func splitType(s string) (pkg, name string) {
@@ -709,6 +710,7 @@ type row struct {
 	emit  emitSel
 	need  []guard
 	min   int             // minimum number of emission sites expected
+	pos   []string        // if set: every cursor-position predicate (ContainsPos) guarding the emission is one of these texts
 	exact []string        // if set: the set of comparison/field atoms allowed as *data filters* at the emission (no others)
 	live  map[string]bool // if set: with these atoms fixed (text -> truth) the emission must still be reachable (the guards may not be stronger)
 	why   string
@@ -982,6 +984,32 @@ func runRows(prop string) func(p *Prog, r *Report) {
 							continue
 						}
 					}
+					if rw.pos != nil {
+						var extraPos []string
+						for _, a := range fn.GuardsAt(em).AllAtoms() {
+							if a == nil || a.E == nil {
+								continue
+							}
+							c, ok := ast.Unparen(fn.viewExpr(a.E)).(*ast.CallExpr)
+							if !ok || lastSel(c.Fun) != "ContainsPos" {
+								continue
+							}
+							allowed := false
+							for _, w := range rw.pos {
+								if sameText(fn, cmpText(c), w) {
+									allowed = true
+								}
+							}
+							if !allowed {
+								extraPos = append(extraPos, cmpText(c))
+							}
+						}
+						if len(extraPos) > 0 {
+							r.Add("E1.row", fn.Name, construct, p.Pos(em), Violated,
+								fmt.Sprintf("%s — a further cursor-position test narrows where this is produced: %s", rw.why, strings.Join(dedup(extraPos), "; ")), true)
+							continue
+						}
+					}
 					if rw.live != nil {
 						canT, _ := possible(fn.GuardsAt(em), func(a *Atom) (bool, bool) {
 							if a.E == nil {
@@ -1039,6 +1067,21 @@ func rowEmissions(fn *Func, rw row) []emHit {
 				return true
 			})
 			if !hit {
+				continue
+			}
+		}
+		if rw.emit.notText != "" {
+			hit := false
+			ast.Inspect(h.view, func(n ast.Node) bool {
+				if bl, ok := n.(*ast.BasicLit); ok && strings.Contains(bl.Value, rw.emit.notText) {
+					hit = true
+				}
+				if id, ok := n.(*ast.Ident); ok && id.Name == rw.emit.notText {
+					hit = true
+				}
+				return true
+			})
+			if hit {
 				continue
 			}
 		}
